@@ -571,8 +571,15 @@ def r7_loop_control(ctx):
                         ctx.bad("call|falls-off-end", efc.where(tgt), "a function body that ends without `return` no longer yields null")
 
 
+def r8_template_escapes_everywhere(ctx):
+    """`{{` and `}}` stand for one brace wherever they occur in a string, the very end included: the look-ahead that recognises
+    them is bounded by exactly the position it reads (shared with C07-R2c)."""
+    from .c07 import r2c_template_reads_in_bounds
+    r2c_template_reads_in_bounds(ctx)
+
+
 RULES = [("C01-R1", r1_keyword_chain), ("C01-R2", r2_precedence), ("C01-R3", r3_operator_meaning), ("C01-R4", r4_order_shortcircuit_zero),
-         ("C01-R5", r5_builtin_tables), ("C01-R6", r6_truthiness_and_printing), ("C01-R7", r7_loop_control)]
+         ("C01-R5", r5_builtin_tables), ("C01-R6", r6_truthiness_and_printing), ("C01-R7", r7_loop_control), ("C01-R8", r8_template_escapes_everywhere)]
 
 EXPLANATION = (
     "Thin by design: output equality with a reference semantics over all programs is not decidable in this family (there is no "
@@ -585,6 +592,9 @@ EXPLANATION = (
     "the documented signatures, dispatch arm -> implementation, implementation -> std primitive, typeof names; R6 null "
     "falsiness in if/loop, Display literals, shout prints and records; R7 loop-control table. Not decided: everything "
     "compositional, IEEE results, interpolation text."
+)
+EXPLANATION += (
+    ' R8 (= C07-R2c): the look-ahead that recognises the `{{` / `}}` escapes in a template is bounded by exactly the position it reads, so the escapes also work at the very end of a string.'
 )
 ASSUMPTIONS = ["reference tables in /verif/reference/language.json state the documented surface (docs/*.md); rows marked 'confirmed on ec803c6' are what the suite and the examples assume"]
 TRUSTED = ["rustc nightly HIR/MIR", "nsx exporter", "nsverif partial evaluator and pattern evaluator"]
